@@ -151,6 +151,32 @@ pub struct SelectZeroAdapt<B, I = Box<[usize]>> {
     ones_per_sub16_mask: usize,
 }
 
+#[cfg(sux_verif)]
+impl<B, I: AsRef<[usize]>> SelectZeroAdapt<B, I> {
+    /// Verification hook: number of inventory entries with 16-, 32- and
+    /// 64-bit subinventories, and number of words of the spill buffer.
+    pub fn verif_span_counts(&self) -> [usize; 4] {
+        let step = (1usize << self.log2_u64_per_subinventory) + 1;
+        let inv = self.inventory.as_ref();
+        let mut counts = [0usize; 4];
+        let mut i = 0;
+        // the last word is the sentinel
+        while i + 1 < inv.len() {
+            let e = inv[i];
+            if e as isize >= 0 {
+                counts[0] += 1;
+            } else if e >> 62 == 2 {
+                counts[1] += 1;
+            } else {
+                counts[2] += 1;
+            }
+            i += step;
+        }
+        counts[3] = self.spill.as_ref().len();
+        counts
+    }
+}
+
 impl<B, I> SelectZeroAdapt<B, I> {
     pub fn into_inner(self) -> B {
         self.bits
